@@ -170,6 +170,11 @@ def run(ctx):
             ctx.bad("queue-" + v.rule, v.key, v.where, v.what)
     n_ins = sum(1 for o in ts.ops if o[1] == "insert")
     ctx.check(n_ins >= 6, "queue-insert", "census", "-", "%d insertion sites: each files the order under the key stored with it (typestate)" % n_ins)
+    # .. "stored with it": the re-keyed working copy (order AND key) is stored back as a whole on every modifying path - a stale
+    # stored key makes the later removal miss the queue entry (the order stays queued after it is cancelled / filled)
+    from .c02 import writeback
+    from .c06 import _Prefixed
+    writeback(_Prefixed(ctx, "queue-"), m)
     # the priority map is keyed by (price key, queue time)
     q = m.q(ins)
     pc = [c for c in q.calls("insert") if c.args and fld(c.args[0], m.s_prio)]
